@@ -367,6 +367,14 @@ impl Quantity {
     }
 }
 
+#[cfg(feature = "verif")]
+impl Quantity {
+    /// Verification hook: the conversion target, if any.
+    pub fn verif_conversion_target(&self) -> Option<&Quantity> {
+        self.conversion_target.as_deref()
+    }
+}
+
 impl From<&Number> for Quantity {
     fn from(n: &Number) -> Self {
         Quantity::from_scalar(n.to_f64())
